@@ -11,14 +11,17 @@ pub fn e1(id: &str) -> Option<E1Def> {
     Some(match id {
         "C01" => E1Def {
             id: "C01",
+            // a keyspace recovered by a reopen is a keyspace like any other: a few reopens are part of
+            // the programs (what a reopen must preserve is C04's and C11's subject)
             profile: Profile {
                 max_ops: 45,
                 flavors: vec![Flavor::Plain],
-                w: Weights::default(),
+                w: Weights { reopen: 1, ..Weights::default() },
                 ..Profile::default()
             },
             thorough_profile: Some(Profile {
                 max_ops: 120,
+                w: Weights { reopen: 1, ..Weights::default() },
                 ..Profile::default()
             }),
             opts: Opts {
